@@ -19,6 +19,11 @@ func (l *filterRuleList) addRule(fr *filterRule) error {
 		fr.flag |= filtruleDirectory
 		fr.pattern = strings.TrimSuffix(fr.pattern, "/")
 	}
+	if strings.HasPrefix(fr.pattern, "/") {
+		// matches compares with names relative to the transfer root, which
+		// never start with a slash: the rule would silently never match.
+		return fmt.Errorf("filter rule %q: anchored patterns (leading slash) are not yet implemented", fr.pattern)
+	}
 	if strings.ContainsFunc(fr.pattern, func(r rune) bool {
 		return r == '*' || r == '[' || r == '?'
 	}) {
